@@ -931,3 +931,85 @@ def run(ctx) -> None:  # noqa: F811
     n_is = isinst.check(ctx, r_, funcs)
     ctx.require(n_is >= 8, f"R-ISINSTANCE examined only {n_is} isinstance tests")
     _inner_run_c30_sweep(ctx)
+
+
+# ======================================================================================================================
+# Seeded-change round 5: the reader counts the stored objects by probing numbered keys, so every writer arm has to start
+# from an empty group (sa/rules/storeclear.py).
+# ======================================================================================================================
+from ..rules import deferred as _deferred  # noqa: E402
+from ..rules import storeclear as sc  # noqa: E402
+
+
+def _store_cleared(ctx, repo) -> None:
+    R = "R-STORECLEARED"
+    clist = repo.method(ARR, "ComputableList", "to_zarr")
+    canon = repo.function(ARR, "_from_zarr_canonical")
+    K = clist.qualname
+    probe = sc.reader_probe(canon)
+    tables = sorted(probe["tables"])
+    ctx.require(len({t for t, _ in tables}) == 1, f"{canon.qualname}: the reader probes more than one table: {tables}")
+    table = tables[0][0]
+    prefixes = sorted(p for _, p in tables)
+    what = "attributes" if table == "attrs" else "members"
+    ctx.ok(R, f"{canon.qualname}:count by probing", canon.loc(probe["node"]),
+           f"the number of stored objects is decided by probing the group {what} for {', '.join(p + '{i}' for p in prefixes)} "
+           "until a key is missing")
+    imports = dict(clist.module.imports)
+    imports.update(sc.local_imports(clist.node))
+    nested = [n for n in ast.walk(clist.node) if isinstance(n, ast.FunctionDef) and n is not clist.node
+              and sc.has_entry_store(n, table)]
+    n_arms = 0
+    for fn in nested:
+        W = f"{K}.{fn.name}"
+        calls = [c for c in ast.walk(clist.node) if isinstance(c, ast.Call) and isinstance(c.func, ast.Name)
+                 and c.func.id == fn.name and not any(c is x for x in ast.walk(fn))]
+        ctx.require(len(calls) >= 1, f"{W}: the writer is never called")
+        bad: dict[tuple, sc.Site] = {}
+        unsure: list[sc.Site] = []
+        good: set[str] = set()
+        n_sites = 0
+        for c in calls:
+            b = bind_args(c, FuncInfo(clist.module, fn, None))
+            bound = {p: a.value for p, a in b.items() if isinstance(a, ast.Constant)}
+            for s in sc.writer_verdicts(fn, imports, table, bound):
+                n_sites += 1
+                if s.verdict is True:
+                    good.add(s.why)
+                elif s.verdict is False and not s.assumed:
+                    bad.setdefault((tuple(sorted(s.valuation.items())), s.why), s)
+                else:
+                    unsure.append(s)
+        ctx.require(n_sites >= 1, f"{W}: no statement that adds an entry to the group {what} was reached")
+        n_arms += 1
+        if not bad and unsure:
+            s = unsure[0]
+            raise AnalysisError(f"{W}: cannot decide whether the group is empty when `{norm_text(s.node)[:50]}` runs "
+                                f"({s.why or 'undecided'}; undecidable tests: {list(s.assumed)})")
+        msgs = []
+        for (valuation, why), s in sorted(bad.items(), key=lambda kv: repr(kv[0])):
+            cond = ", ".join(f"{k}={v!r}" for k, v in valuation) or "on every call"
+            msgs.append(f"[{cond}] {why}")
+        ctx.check(not bad, R, f"{W}:group is empty when the entries are written", clist.loc(fn),
+                  "on every path and for every value of the truth-tested parameters the group is empty before the "
+                  f"numbered entries are added ({'; '.join(sorted(good))})",
+                  f"the group {what} still hold the entries of an earlier write when this one adds its own: "
+                  + " | ".join(msgs) + f". {canon.name} collects {prefixes[0]}0, {prefixes[0]}1, ... until a key is "
+                  "missing, so after writing fewer objects than the location held before, reading returns the new objects "
+                  "followed by stale ones (another type, another content)", key_detail="storecleared")
+    ctx.require(n_arms >= 2, f"{K}: fewer than two writer arms (zip store, directory) found")
+
+
+_inner_run_c30_seed5 = run
+
+
+def run(ctx) -> None:  # noqa: F811
+    ctx.rule("R-STORECLEARED", "writer/reader agreement on the NUMBER of stored objects: _from_zarr_canonical decides how "
+             "many objects a store holds by probing the numbered keys until one is missing (established from its loop "
+             "exits), and to_zarr records no count; therefore every writer arm (zip store, directory) must add its "
+             "entries to an EMPTY group on every path and for every value of `overwrite`: the group is opened with a "
+             "truncating or refusing mode (\"w\", \"w-\"; ZipStore \"w\"/\"x\"; group(overwrite=True)), or the location "
+             "was removed on that path, or the attributes were cleared. The mode / overwrite arguments are evaluated "
+             "through the assignments executed on the path; an existing location is assumed. Otherwise entries of an "
+             "earlier, longer write survive and come back as objects")
+    _deferred.run(ctx, lambda: _store_cleared(ctx, ctx.repo), _inner_run_c30_seed5)
